@@ -74,9 +74,13 @@ def plan(h, sessions):
         for st in steps:
             if st["do"] == "go":
                 e = table[st["line"]]
-                if e.get("panic"):
-                    raise ToolError("go line outside the driver's grammar: %r" % st["line"])
                 ex = st.setdefault("extra", {})
+                if e.get("panic"):
+                    # the engine's own go parser panics on this (well-formed) line: no plan; the session still runs
+                    # on the real binary, where the consequence (process death / no answer) is what gets judged
+                    ex.update({"toks": e["toks"], "slice_w": 0, "slice_b": 0, "notime": True})
+                    st["wait_ms"] = 3000
+                    continue
                 ex.update({"toks": e["toks"], "slice_w": e["slice_w"], "slice_b": e["slice_b"]})
                 st["wait_ms"] = max(e["slice_w"], e["slice_b"]) + 4000
 
@@ -415,6 +419,17 @@ def c16(tier, replay):
         for v in variants:
             sessions.append(v + probe)
             shard.append(pi)
+    # a bare position probed after ITS OWN game with repetitions (a record that survives the position command changes the
+    # search of positions reachable from the probe): timed probes, compared with a fresh process
+    own = [c for c in live if " moves " in c and c.startswith("position fen")]
+    for j, c in enumerate(own[: (6 if q else 40)]):
+        base = c.split(" moves ")[0]
+        pid_ = "own%d" % j
+        probe = [{"do": "send", "line": base}, {"do": "go", "line": "go wtime 600 btime 600 movestogo 2", "extra": {"probe": pid_, "timed": True}}]
+        for pre in ([], [{"do": "send", "line": c}, {"do": "go", "line": rng.choice(GO_ZERO)}],
+                    [{"do": "send", "line": c}, {"do": "send", "line": "ucinewgame"}]):
+            sessions.append(pre + probe)
+            shard.append(nprobe + j)
     plan(h, sessions)
     logs = run_sessions(binary, sessions, 6)
     sample_session(run, sessions[2], logs[2])
